@@ -1,6 +1,8 @@
 import PyaModel.Proofs.C07
 import PyaModel.Generated.SigTypes
 import PyaModel.Generated.SigRoutes
+import PyaModel.Generated.AttrUnwrap
+import PyaModel.Core.Obtain
 import PyaModel.Spec.Mem
 import PyaModel.Generated.ClassTable
 /-!
@@ -338,6 +340,99 @@ theorem sibling_bases_both_compared :
 example : c3Mros [[], [0], [0], [1, 2]] = [some [0], some [1, 0], some [2, 0], some [3, 1, 2, 0]] := by decide
 example : c3Mros [[], [0], [0], [2, 1]] = [some [0], some [1, 0], some [2, 0], some [3, 2, 1, 0]] := by decide
 example : c3Mros [[], [0], [0, 1]] = [some [0], some [1, 0], none] := by decide
+
+/-! ## How the actual callable was obtained -/
+
+/-- **Acceptance of an obtained callable is acceptance of the plain `def` of its effective
+header**, hence sound outside the two exception classes *of that pair* — for every way of
+obtaining it (bound method, function through the class, staticmethod / classmethod through
+instance or class, `__call__` instance, constructor, property, nested def, lambda). The `obtain`
+stream ties pyanalyze's attribute unwrapping to `effectiveSig`, and `inspect.signature` of the
+really obtained object validates `effectiveSig` itself. -/
+theorem obtain_sound_partial (R : TyRel τ) (a : τ) (E hdr : TDefSig τ) (o : Obtained)
+    (hA : (effectiveSig a o hdr).WF)
+    (h1 : ¬ D07_posKwClash E (effectiveSig a o hdr) = true)
+    (h2 : ¬ D07_starKwClash E (effectiveSig a o hdr) = true)
+    (hacc : obtainOk R a E o hdr = true) : BehSound E (effectiveSig a o hdr) :=
+  sig_assign_sound_partial R E _ hA h1 h2 hacc
+
+/-- …and contravariant / covariant. -/
+theorem obtain_variance_partial (R : TyRel τ) (sup : τ → τ → Prop) (hR : RelSound R sup) (a : τ)
+    (E hdr : TDefSig τ) (o : Obtained) (hE : E.WF) (hA : (effectiveSig a o hdr).WF)
+    (h1 : ¬ D07_posKwClash E (effectiveSig a o hdr) = true)
+    (hacc : obtainOk R a E o hdr = true) :
+    ArgsContra sup E (effectiveSig a o hdr) ∧ sup (effectiveSig a o hdr).ret E.ret :=
+  sig_assign_variance_partial R sup hR E _ hE hA h1 hacc
+
+/-- Whether the member is defined on the class itself or inherited (any number of levels) makes
+no difference to the effective header, hence none to the verdict. -/
+theorem obtain_inherited_same (R : TyRel τ) (a : τ) (E hdr : TDefSig τ) (h : How) (d₁ d₂ : Nat) :
+    obtainOk R a E ⟨h, d₁⟩ hdr = obtainOk R a E ⟨h, d₂⟩ hdr := rfl
+
+/-- A staticmethod keeps its whole header through an instance and through the class; a bound
+method, a classmethod, a `__call__` instance and a property-returned function have the header as
+written after `self` / `cls`; only the function read through the class gains `self`. -/
+theorem effectiveSig_cases (a : τ) (hdr : TDefSig τ) (d : Nat) :
+    effectiveSig a ⟨.staticInst, d⟩ hdr = hdr ∧ effectiveSig a ⟨.staticCls, d⟩ hdr = hdr ∧
+    effectiveSig a ⟨.bound, d⟩ hdr = hdr ∧ effectiveSig a ⟨.classInst, d⟩ hdr = hdr ∧
+    effectiveSig a ⟨.classCls, d⟩ hdr = hdr ∧ effectiveSig a ⟨.callInst, d⟩ hdr = hdr ∧
+    effectiveSig a ⟨.prop, d⟩ hdr = hdr ∧ effectiveSig a ⟨.funcViaClass, d⟩ hdr = withSelfParam a hdr :=
+  ⟨rfl, rfl, rfl, rfl, rfl, rfl, rfl, rfl⟩
+
+/-- Regression for "an inherited staticmethod read through an instance loses its first
+parameter" (seeded C07-4): `@staticmethod def handler(tag, b)` inherited one level, expected
+`Callable[[int], None]`: rejected, and `f(1)` indeed does not bind to it. -/
+def wHandler : TDefSig Tag :=
+  { po := [], pk := [⟨"tag", false, .object⟩, ⟨"b", false, .int⟩], vp := none, ko := [], vk := none, ret := .any }
+def wCb : TDefSig Tag := { po := [⟨"x", false, .int⟩], pk := [], vp := none, ko := [], vk := none, ret := .any }
+
+theorem inherited_static_keeps_first_param :
+    obtainOk liveTyRel .any wCb ⟨.staticInst, 1⟩ wHandler = false ∧
+    cpyBind wCb.shape ⟨1, []⟩ = true ∧ cpyBind (effectiveSig Tag.any ⟨.staticInst, 1⟩ wHandler).shape ⟨1, []⟩ = false := by
+  decide
+
+/-- The decisions of `attributes._unwrap_value_from_typed` / `_get_attribute_from_mro` that the
+`obtain` stream exercises (property / classmethod / bound method / function-or-staticmethod, the
+lookup primitives and the exceptions they swallow). -/
+def pinnedUnwrapBranches : List (String × String × String) :=
+  [("_unwrap_value_from_typed", "if", "not isinstance(result, KnownValue) or ctx.skip_unwrap"),
+   ("_unwrap_value_from_typed", "if", "isinstance(cls_val, property)"),
+   ("_unwrap_value_from_typed", "if", "qcore.inspection.is_classmethod(cls_val)"),
+   ("_unwrap_value_from_typed", "if", "inspect.ismethod(cls_val)"),
+   ("_unwrap_value_from_typed", "if", "inspect.isfunction(cls_val)"),
+   ("_unwrap_value_from_typed", "lookup", "inspect.getattr_static(typ, ctx.attr)"),
+   ("_unwrap_value_from_typed", "except", "AttributeError"),
+   ("_unwrap_value_from_typed", "if", "ctx.attr != '__new__'"),
+   ("_unwrap_value_from_typed", "if", "isinstance(descriptor, staticmethod) or ctx.attr == '__new__'"),
+   ("_unwrap_value_from_typed", "if", "isinstance(cls_val, (MethodDescriptorType, SlotWrapperType))"),
+   ("_unwrap_value_from_typed", "if", "_static_hasattr(cls_val, 'decorator') and _static_hasattr(cls_val, 'instance') and (not isinstance(cls_val.instance, type))"),
+   ("_unwrap_value_from_typed", "if", "asynq.is_async_fn(cls_val)"),
+   ("_unwrap_value_from_typed", "if", "_static_hasattr(cls_val, 'func_code')"),
+   ("_unwrap_value_from_typed", "if", "_static_hasattr(cls_val, '__get__')"),
+   ("_unwrap_value_from_typed", "if", "typeshed_type is not UNINITIALIZED_VALUE"),
+   ("_unwrap_value_from_typed", "if", "TreatClassAttributeAsAny.should_treat_as_any(cls_val, ctx.options)"),
+   ("_unwrap_value_from_typed", "if", "transformed is not None"),
+   ("_get_attribute_from_mro", "lookup", "getattr(typ, ctx.attr)"),
+   ("_get_attribute_from_mro", "except", "Exception"),
+   ("_get_attribute_from_mro", "except", "Exception"),
+   ("_get_attribute_from_mro", "lookup", "type.mro(typ)"),
+   ("_get_attribute_from_mro", "except", "Exception"),
+   ("_get_attribute_from_mro", "lookup", "base_cls.__dict__"),
+   ("_get_attribute_from_mro", "except", "Exception"),
+   ("_get_attribute_from_mro", "lookup", "base_dict['__annotations__']"),
+   ("_get_attribute_from_mro", "except", "Exception"),
+   ("_get_attribute_from_mro", "lookup", "base_dict[ctx.attr]"),
+   ("_get_attribute_from_mro", "except", "Exception"),
+   ("_get_attribute_from_mro", "lookup", "getattr(typ, ctx.attr)"),
+   ("_get_attribute_from_mro", "except", "Exception"),
+   ("_get_attribute_from_mro", "lookup", "getattr(typ, ctx.attr)"),
+   ("_get_attribute_from_mro", "except", "AttributeError"),
+   ("_get_attribute_from_mro", "except", "Exception")]
+
+
+/-- Obligation over `Generated/AttrUnwrap.lean` (AST scan of the live tree): a changed test,
+lookup primitive (`inspect.getattr_static` vs `__dict__`) or except clause is noticed. -/
+theorem attr_unwrap_branches_registered : liveUnwrapBranches = pinnedUnwrapBranches := by rfl
 
 /-! ## Route coverage -/
 
